@@ -87,7 +87,8 @@ def hist_opts(r, valid=0.97):
 
 class C08(SeqProp):
     pid = "C08"
-    spec_import = "Require Import PV.Spec.SpecC08."
+    spec_import = "Require Import PV.Spec.SpecC08.\nRequire PV.Proofs.C08Spec."
+    dom_fn = "PV.Proofs.C08Spec.dom08"     # the domain of the uniform spec-of-model theorem (counted in the evidence)
     spec_fn = "spec_c08"
     rule = ("each scenario builds one Histogram, HistogramVec (+ children) or a helper-made bucket list from a float pool (bounds, +-0, subnormals, "
             "+-inf, NaN, duplicates, unordered, empty, [+inf]), observes values from the same pool, the bounds themselves and their one-ulp "
